@@ -33,7 +33,7 @@ package circularQueue
 
 //@ func (*CircularQueue).Add
 //@ ghostparam hist (Array Int S_github_com_goblimey_go_ntrip_rtcm_handler_Message)
-//@ requires[C07] cb != nil
+//@ requires cb != nil
 //@ requires[C18] QInv(cb) && cb.NextIndex < 4611686018427387904
 //@ requires[C18] forallint(k, has(cb.Items, k) ==> cb.Items[k] == hist[k])
 //@ let ni = cb.NextIndex
@@ -53,7 +53,7 @@ package circularQueue
 //@ invariant[C18] forallint(k, has(cb.Items, k) ==> cb.Items[k] == hist[k])
 
 //@ func (*CircularQueue).GetMessages
-//@ requires[C07] cb != nil
+//@ requires cb != nil
 //@ requires[C18] QInv(cb)
 //@ let lo = cb.NextIndex - len(cb.Items)
 //@ ensures[C18] len(result) == len(cb.Items) && fresh(result)
